@@ -10,7 +10,8 @@ REQUIRED = ["CifModel.C15_skip_depth_balanced", "CifModel.C15_skip_depth_nonneg"
             "CifModel.C15_layout_callbacks_doc", "CifModel.C15_layout_all_continue", "CifModel.C15_layout_all_continue_mirror",
             "CifModel.C15_layout_stop_semantics", "CifModel.C15_layout_rendered",
             "CifModel.C15_dup_structural_any", "CifModel.C15_dup_header_dropped_column", "CifModel.C15_dup_layout",
-            "CifModel.C15_start_only_callbacks", "CifModel.C15_start_only_callbacks_layout"]
+            "CifModel.C15_start_only_callbacks", "CifModel.C15_start_only_callbacks_layout",
+            "CifModel.C15_dup_is_plain_without_duplicates", "CifModel.C15_dup_stop_semantics_without_duplicates"]
 GEN = ["ErrCodes"]
 FAMILIES = ["pcb"]
 TRUSTED_BASE = [
